@@ -540,7 +540,7 @@ theorem unstruct_total (hU : clsesOKU E = true) : ∀ (n : Nat) (ty : PyTy) (v :
         exact ⟨⟨.obj out, ⟨m + 1, by simp [unstruct, hm, bind, Except.bind]⟩, ⟨k + 1, by simp [nrel, hk]⟩, ⟨r + 1, by simp [rep, hnb, hnd, hr]⟩⟩,
           ⟨.obj out', ⟨m' + 1, by simp [unstruct, hm', bind, Except.bind]⟩, ⟨k' + 1, by simp [nrel, hk']⟩, ⟨r' + 1, by simp [rep, hnb, hnd', hr']⟩⟩⟩
     | cls c =>
-      obtain ⟨n', cl, vals, kvs, hn, hc, rfl, rfl, _, _, hrf, ⟨u, hru⟩⟩ := rep_cls_inv E bad h0
+      obtain ⟨n', cl, vals, kvs, hn, hc, rfl, rfl, hknd, hkdecl, hrf, ⟨u, hru⟩⟩ := rep_cls_inv E bad h0
       cases hn
       have hclm : cl ∈ E.pkg.classes := List.mem_of_find?_eq_some hc
       have hcl := List.all_eq_true.mp hU cl hclm
@@ -555,7 +555,7 @@ theorem unstruct_total (hU : clsesOKU E = true) : ∀ (n : Nat) (ty : PyTy) (v :
         intro kv hkv
         obtain ⟨f, hf, hfw⟩ := hkeys kv hkv
         exact ⟨f, hf, hfw⟩
-      have hn : NRel E (.cls c) (.obj kvs) (.obj out) := ⟨k + 1, by simp [nrel, hc, hnodup, hdecl, hk]⟩
+      have hn : NRel E (.cls c) (.obj kvs) (.obj out) := ⟨k + 1, by simp [nrel, hc, hnodup, hdecl, hk, hknd, hkdecl]⟩
       have hrep : Rep E bad (.cls c) (.inst cl.name vals) (.obj out) := ⟨r + 1, by
         unfold rep
         simp only [hc, hnb, Bool.not_false, Bool.true_and, beq_self_eq_true, hnodup, hdecl, hr, hru]⟩
